@@ -7,9 +7,28 @@ from . import tlc
 from .ctx import Machinery
 
 
+BATCH = 20000          # traces per TLC start: the JSON reader of TLC does not survive files of hundreds of megabytes
+
+
 def validate(module, cfg, traces, tag="t", workers=16, timeout=1800):
     if not traces:
         raise Machinery("%s: no trace to validate" % module)
+    if len(traces) > BATCH:
+        total, out = None, []
+        for b0 in range(0, len(traces), BATCH):
+            r, v = validate(module, cfg, traces[b0:b0 + BATCH], "%s_%d" % (tag, b0), workers, max(timeout, 3600))
+            for rec in v:
+                if "tid" in rec:
+                    rec["tid"] = int(rec["tid"]) + b0
+            out += v
+            if total is None:
+                total = r
+            else:
+                total.generated += r.generated
+                total.distinct += r.distinct
+                total.depth = max(total.depth, r.depth)
+                total.wall += r.wall
+        return total, out
     d = tlc.scratch("trace-")
     path = os.path.join(d, "traces_%s.json" % tag)
     with open(path, "w", encoding="utf-8") as f:
